@@ -31,6 +31,10 @@ CHECKS = {
          "Defects.tla holds the catalogue of documented defects, the exception classes a refusal may carry and the rules of the property as predicates; TLC enumerates all defect sets of size <= 2; CLI.tla is model-checked for the exit-status rules (refused / problem flagged / warnings only) over all input classes, force-output and formats.  Every defect set x force-output is applied to random valid points through the C++ API, the C API and gm2calc.x in the three input formats; Trace_C16.tla evaluates the rules on each recorded outcome (exception class / error code, stderr warnings, problem flag, finiteness, exit status, presence of physics output)",
          "a refusal under force-output counts as rejection; the massless-chargino defect is not enumerated (not realisable exactly from outside); SLHA-format program runs use the shipped example point; trusted: Defects.tla transcription of the documentation, TLC",
          "TLC enumeration of defect sets + model checking of CLI.tla + TLA+ trace validation (Trace_C16.tla) of library and program outcomes", "DESIGN 5/C16"),
+ "C17": ("model_checking",
+         "CAPI.tla: handles and the mirrored C++ object as a state machine (null/live/freed, tan(beta) set or not, THDM built with a valid or out-of-range enum, spectrum calculated); all call sequences over 28 action classes are explored to depth 8 (NeverAborts holds with exception-tight wrappers; the unchanged tree's protection table violates it - model-level reproduction of K6); TLC simulates call histories of depth 40 which are concretised (random function of each class, finite and non-finite values, buffer lengths 0..64, NULL arguments) and replayed on a C handle and a mirrored C++ object in a forked child of the ASan+UBSan build; Trace_C17.tla checks per call: bit-for-bit agreement with the mirror, NaN / error code for a throwing mirror, get(set(x)) = x, bounded and terminated string getters, and per sequence that the process survived",
+         "use-after-free, out-of-range indices and enum values outside the enumeration's value range 0..7 (whose load is UB in C++) are outside the alphabet; trusted: the C -> C++ correspondence table of the driver (from the header documentation), fork/waitpid observation, TLC",
+         "TLC model checking + simulation of CAPI.tla; TLA+ trace validation (Trace_C17.tla) of C-API call sequences replayed against a C++ mirror under sanitizers", "DESIGN 5/C17"),
  "C18": ("exploration",
          "random MSSM/THDM models from TLC-enumerated classes; every recorded call of the uncertainty API is validated by TLC against the documented definitions (floor, sums, overload agreement) in exact arithmetic",
          "sampling inside classes is not exhaustive; trusted: TLC, lossless double encoder, class generators",
